@@ -166,6 +166,12 @@ def strat_direct(tier):
     size = st.one_of(st.integers(0, maxsize), st.integers(max(0, target - 2), target + 2),
                      st.sampled_from([0, 1, target, 2 * target, 2 * target + 1]))
     sizes = draw(st.lists(size, min_size=0, max_size=maxlen))
+    if draw(st.integers(0, 7)) == 0:
+      # a long run of tiny (also empty) input batches that only fills the target after more than 2**6 of them
+      n = draw(st.sampled_from([63, 64, 65, 100, 150]))
+      sizes = [draw(st.sampled_from([0, 1, 1, 2])) for _ in range(8)] * (n // 8 + 1)
+      sizes = sizes[:n]
+      target = draw(st.sampled_from([max(1, sum(sizes) - 1), max(1, sum(sizes) // 2 + 1), 100, 16]))
     return {'sizes': sizes, 'target': target, 'ncols': draw(st.integers(1, 4)),
             'kind': draw(st.sampled_from(['list', 'tuple', 'array', 'array2d'])), 'pad': draw(st.booleans()),
             'num_columns': draw(st.booleans())}
